@@ -6,12 +6,18 @@ P: the placement table of loadSyntaxRule, the tag numbering and the set of root 
 K: valid DSL generated from abstract rule descriptions (pattern alternatives with the variables gogrep / regexp say they bind,
    Where atoms over a variable pool with kind / object / node-type / version arguments, At(), Report/Suggest templates);
    the Coq validation model (vm_compute) predicts accept / reject for each and is compared with Engine.Load.
-O: the property itself on four streams (arbitrary bytes and mutated fixture / generated files; a catalogue of type-correct Go that
-   is not DSL; the generated DSL; generated file structures: equal-named / blank / method rule groups, local helpers of every
+O: the property itself on seven streams (fn: catalogues of the statement and expression forms of the Go grammar inside custom
+   filter functions, Do handlers, uncalled functions and methods, rule-group bodies, Where() arguments and local helper
+   templates, and of the names a helper template can declare; chain: every combination of the chain methods of a rule, their
+   argument spellings, look-alike user types for the chain methods and for the selector path of EVERY op of the regenerated
+   filter-op table; arbitrary bytes and mutated fixture / generated files; a catalogue of type-correct Go that
+   is not DSL; the generated DSL; histories of Loads on one engine; generated file structures: equal-named / blank / method rule groups, local helpers of every
    signature and body shape, custom filter functions with native calls of many arguments): no panic, no fatal runtime error
    (stack overflow: every Load runs in a child process with a capped stack, the death of the child is attributed to the
-   announced input), no hang (5 s), every error names rules.go:<line> and that line is a line of the source (the same file with 3
+   announced input), no hang (5 s), every error names rules.go:<line> with 1 <= line <= number of lines, that line is a line of the
+   construct under test (fn / chain: the declaration the catalogue entry stands in) and moves with the source (the same file with 3
    blank lines inserted after line 1 must give the same error 3 lines further down), no report with a nil node from an accepted rule.
+   The located error constructions of the load path are regenerated (go2coq errsites); the check reports which of them no input reached.
 """
 import json
 import os
@@ -26,8 +32,14 @@ def coq_str(s):
 
 def run(c):
     thorough = c.tier == "thorough"
-    c.go2coq_sources = ["load.go", "load_ops.go"]
-    c.rule = ("stream bytes: random bytes / mutated fixture rules files / mutated generated files; stream notdsl: a fixed catalogue of "
+    c.go2coq_sources = ["load.go", "load_ops.go", "load_errs.go"]
+    c.rule = ("stream fn: every entry of the statement / expression / declared-name catalogues once, in a host that rotates with the seed "
+              "(custom filter, Do handler, uncalled function, method, rule-group body, Where() argument, local helper template), the limits of "
+              "the bytecode compiler, plus random combinations; stream chain: all sequences of one and two chain methods, all subsets of three and "
+              "more (order drawn from the seed), repeated methods, argument spellings, chains on other values of the matcher's type, look-alike "
+              "user types with 0 / 2 arguments rooted at a variable / call / element / conversion, and for every op of the regenerated op table its "
+              "selector path on a user type with 0 / 2 / a non-constant argument; distinct by catalogue entry; "
+              "stream bytes: random bytes / mutated fixture rules files / mutated generated files; stream notdsl: a fixed catalogue of "
               "type-correct non-DSL files (incl. the shapes that used to crash Load); stream dsl: first, for EVERY op of the regenerated "
               "filter-op table whose DSL form takes a variable, rules that apply it to a variable no alternative binds / only the first of two "
               "alternatives binds (plain, negated, in && and ||; as either operand of a comparison for the value-typed forms; as the argument "
@@ -42,10 +54,13 @@ def run(c):
         "go2coq placetable/validtables/optable (switch tables, case-label lists, pinned statement lists, error-site scan, the op table of "
         "ir/filter_op.gen.go with the DSL form each op is documented with)",
         "gogrep / regexp verdicts and bound variables of each pattern alternative are inputs of the model (computed by the harness with the same libraries)",
-        "harness/cmd/c06 (generators, 5 s timeout per Load, supervisor/child split with a 96 MB stack cap, 'located' = the message contains rules.go:<line>)",
+        "harness/cmd/c06 (generators, 5 s timeout per Load, supervisor/child split with a 96 MB stack cap, 'located' = the message contains "
+        "rules.go:<line> with a line of the file; the two halves of the streams run as two processes side by side)",
+        "go2coq errsites / errsitescoq (syntactic scan of the calls of the locating helpers, of the IR literals irconv builds without a Line and of the "
+        "uses of argument lines in newFilter's cases)",
     ]
     c.notes += ["panic-freedom of go/parser, go/types, gogrep, typematch, quasigo and of the bulk of irconv over arbitrary inputs is NOT proved; "
-                "the three input streams search for counterexamples only",
+                "the input streams search for counterexamples only",
                 "Do() functions refer to variables by run-time strings and are outside the validation model"]
 
     c.build_theories()
@@ -58,10 +73,15 @@ def run(c):
     var_ops = []
     if g3:
         var_ops = [o["name"] for o in json.load(open(ops_path))["ops"] if "m[$Value]" in o["form"]]
+    # every located error construction of the load path (the check reports which of them the run reached), and the facts about the
+    # LINE of a loader error that Inst_Valid.v needs
+    g4 = c.go2coq("errsites", "errsites.json")
+    g5 = c.go2coq("errsitescoq", "Gen_Errs.v")
+    err_sites = json.load(open(os.path.join(c.gen, "errsites.json")))["sites"] if g4 else []
     gen_ok = False
     inst_ok = False
-    if g1 and g2:
-        gen_ok = c.coq_compile(["Gen_Place.v", "Gen_Valid.v"])
+    if g1 and g2 and g5:
+        gen_ok = c.coq_compile(["Gen_Place.v", "Gen_Valid.v", "Gen_Errs.v"])
         if gen_ok:
             c.install_tmpl("C06/Inst_Valid.v", "C06/C06.v")
             inst_ok = c.coq_compile(["Inst_Valid.v", "C06.v"])
@@ -71,21 +91,39 @@ def run(c):
         return c.finish()
     state = {"round": 0}
 
-    def observe(seed, nbytes, ndsl, nstruct, nhist):
+    # the streams run as two processes side by side (each stream draws from its own generator and numbers its cases from its own
+    # base, so what is generated does not depend on the split): the fixed catalogues + histories, and the generated files
+    HALVES = ["fn,chain,notdsl,hist", "bytes,dsl,struct"]
+
+    def observe(seed, nbytes, ndsl, nstruct, nhist, nfn):
+        import threading
         state["round"] += 1
         c.log("harness ...")
-        rc, out = c.run_harness(hb, ["-seed", str(seed), "-bytes", str(nbytes), "-dsl", str(ndsl), "-struct", str(nstruct), "-hist", str(nhist),
-                                     "-repo", c.repo, "-tmp", os.path.join(c.work, "tmp%d" % state["round"])] + (["-ops", ops_path] if g3 else []),
-                                timeout=2400)
+        c.harness_modfile()
+        results = [None] * len(HALVES)
+
+        def run(k):
+            results[k] = c.run_harness(hb, ["-seed", str(seed), "-bytes", str(nbytes), "-dsl", str(ndsl), "-struct", str(nstruct), "-hist", str(nhist),
+                                            "-fn", str(nfn), "-streams", HALVES[k], "-repo", c.repo,
+                                            "-tmp", os.path.join(c.work, "tmp%d_%d" % (state["round"], k))] + (["-ops", ops_path] if g3 else []),
+                                       timeout=2400)
+        ths = [threading.Thread(target=run, args=(k,)) for k in range(len(HALVES))]
+        for t in ths:
+            t.start()
+        for t in ths:
+            t.join()
         cases = []
-        for line in out.splitlines():
-            if line.startswith("{"):
-                try:
-                    cases.append(json.loads(line))
-                except ValueError:
-                    pass
-        if rc != 0 or not cases:
-            c.obligation("harness-run:c06", False, out[-2000:])
+        for k, (rc, out) in enumerate(results):
+            got = 0
+            for line in out.splitlines():
+                if line.startswith("{"):
+                    try:
+                        cases.append(json.loads(line))
+                        got += 1
+                    except ValueError:
+                        pass
+            if rc != 0 or not got:
+                c.obligation("harness-run:c06:" + HALVES[k], False, out[-2000:])
         return cases
 
     def model_verdicts(cases, tag):
@@ -137,6 +175,7 @@ def run(c):
         return verdict
 
     probed, control = set(), set()
+    seen_errors = set()
 
     def judge(cases, tag, with_model=True):
         verdict = model_verdicts(cases, tag) if with_model else {}
@@ -169,6 +208,14 @@ def run(c):
             if x.get("shift"):
                 c.fail("oracle", "the line a Load error names is not a line of the rules file: it does not move when blank lines are inserted above it",
                        input=inp, observed=x["shift"], expected="the same error, 3 lines further down")
+            if x.get("span"):
+                c.fail("oracle", "the line a Load error names is not a line of the construct that is wrong: " + (x.get("what") or ""),
+                       input=inp, observed="%s ; %s" % (x["span"], o.get("err")), expected="an error that names a line of the declaration the construct stands in")
+            if o["kind"] == "error":
+                seen_errors.add(o.get("err") or "")
+            for st in (x.get("steps") or []):
+                if st["obs"]["kind"] == "error":
+                    seen_errors.add(st["obs"].get("err") or "")
             if x.get("nil_reports"):
                 c.fail("oracle", "an accepted rule produces a report with a nil node", input=inp, observed=x["nil_reports"], expected=0)
             if x["stream"] == "dsl" and x.get("rule"):
@@ -207,6 +254,8 @@ def run(c):
                 if nsample < 3 and o["kind"] == "ok" and len(r["alts"]) > 1:
                     nsample += 1
                     c.sample({"rule": r, "obs": o})
+            elif x["stream"] in ("fn", "chain"):
+                c.nontriv((x["stream"], x.get("what")))
             else:
                 c.nontriv((x["stream"], o["kind"], (o.get("err") or "")[:40]))
         c.coverage["model_vs_impl_cases"] = c.coverage.get("model_vs_impl_cases", 0) + len(verdict)
@@ -214,15 +263,15 @@ def run(c):
             1 for x in cases if x["stream"] == "dsl" and x.get("rule") for a in x["rule"]["atoms"] if a.get("chk") == "binary")
         c.coverage["constant_vs_constant_comparisons"] = c.coverage.get("constant_vs_constant_comparisons", 0) + sum(
             1 for x in cases if x["stream"] == "dsl" and x.get("rule") for a in x["rule"]["atoms"] if a.get("chk") == "binary" and a["l"] == "lit" and a["r"] == "lit")
-        for s in ("bytes", "notdsl", "dsl", "struct", "hist"):
+        for s in ("fn", "chain", "bytes", "notdsl", "dsl", "struct", "hist"):
             c.coverage["cases_" + s] = c.coverage.get("cases_" + s, 0) + sum(1 for x in cases if x["stream"] == s)
             c.coverage["accepted_" + s] = c.coverage.get("accepted_" + s, 0) + sum(1 for x in cases if x["stream"] == s and x["obs"]["kind"] == "ok")
 
     if thorough:
         for k in range(3):
-            judge(observe(c.seed * 31 + k, 1500, 2000, 1200, 400), "t%d" % k)
+            judge(observe(c.seed * 31 + k, 1500, 2000, 1000, 400, 600), "t%d" % k)
     else:
-        judge(observe(c.seed, 300, 540, 200, 24), "main")
+        judge(observe(c.seed, 200, 400, 100, 24, 30), "main")
     # bound-variable checking was probed through EVERY op of the regenerated table that takes a variable: rejected with a variable
     # that no / not every alternative binds, accepted with a bound one
     if g3:
@@ -234,9 +283,38 @@ def run(c):
 
     def search():
         for k in range(1, 4):
-            judge(observe(c.seed * 1009 + k, 1500, 1500, 1500, 300), "s%d" % k, with_model=gen_ok)
+            judge(observe(c.seed * 1009 + k, 1500, 1500, 1200, 300, 600), "s%d" % k, with_model=gen_ok)
             if any(f["kind"] == "oracle" and not f.get("finding") for f in c.failures):
                 break
 
+    # which located error constructions of the load path did the run reach? (a message is matched against the format string of
+    # the site; sites that share a format are told apart only by their function name and count together)
+    if err_sites:
+        def site_re(fmt_):
+            out, i = "", 0
+            while i < len(fmt_):
+                if fmt_[i] == "%" and i + 1 < len(fmt_):
+                    out += "%" if fmt_[i + 1] == "%" else ".*"
+                    i += 2
+                else:
+                    out += re.escape(fmt_[i])
+                    i += 1
+            return re.compile(r"rules\.go:\d+: " + out + r"(: |$)", re.S)
+        by_fmt = {}
+        for st in err_sites:
+            by_fmt.setdefault(st["format"], []).append(st)
+        reached, missed = 0, []
+        for fmt_, sts in sorted(by_fmt.items()):
+            if not fmt_ or not fmt_.replace("%s", "").replace("%d", "").replace("%T", "").replace("%v", "").strip(" :()"):
+                continue  # no literal text to recognise the message by
+            rx = site_re(fmt_)
+            if any(rx.search(e) for e in seen_errors):
+                reached += len(sts)
+            else:
+                missed += ["%s: %s" % (st["where"].split("/")[-1], fmt_) for st in sts]
+        c.coverage["located_error_sites"] = len(err_sites)
+        c.coverage["located_error_sites_reached"] = reached
+        c.coverage["located_error_sites_not_reached"] = len(missed)
+        c.notes.append("located error sites of the load path no input of this run reached (%d of %d): %s" % (len(missed), len(err_sites), "; ".join(missed)))
     c.coverage["exhaustive"] = False
     c.finish(search=search)
